@@ -463,7 +463,131 @@ func (m *MonSwaps) matchRequests(s *Sim, eb *ExecBlock, swaps []*swapEvt) {
 			ordered = append(ordered, r)
 		}
 	}
+	// Attribution can be ambiguous: one sender may have, in one block, a tiny exact-in request that
+	// was dropped at end-block (its limit was not met: legal) and an exact-out request whose first
+	// hop happens to charge exactly that input amount. A violation is only a violation if NO
+	// attribution of the executed swaps to the requests is consistent (every swap of the sender
+	// belongs to a request, each request is void or settled once within its limits). If such an
+	// attribution exists it is used; otherwise the greedy one below reports what is wrong.
+	shape := func(r *swapReq, chain []*swapEvt) bool {
+		n := len(chain)
+		for h := 0; h < n; h++ {
+			if r.exactIn {
+				if chain[h].pool != r.routesIn[h].PoolId || chain[h].out.Denom != r.routesIn[h].TokenOutDenom {
+					return false
+				}
+			} else if chain[h].pool != r.routesOut[h].PoolId || chain[h].in.Denom != r.routesOut[h].TokenInDenom {
+				return false
+			}
+		}
+		if r.exactIn {
+			return chain[0].in.Equal(r.tokenIn)
+		}
+		return chain[n-1].out.Equal(r.tokenOut)
+	}
+	within := func(r *swapReq, chain []*swapEvt) bool {
+		last := chain[len(chain)-1]
+		if last.recipient != r.recipient {
+			return false
+		}
+		if r.exactIn {
+			return !last.out.Amount.LT(r.minOut)
+		}
+		return !chain[0].in.Amount.GT(r.maxIn)
+	}
+	bySender := map[string][]*swapReq{}
+	var senderOrder []string
 	for _, r := range ordered {
+		if _, ok := bySender[r.sender]; !ok {
+			senderOrder = append(senderOrder, r.sender)
+		}
+		bySender[r.sender] = append(bySender[r.sender], r)
+	}
+	preset := map[*swapReq][]*swapEvt{}
+	for _, snd := range senderOrder {
+		rs := bySender[snd]
+		var evs []*swapEvt
+		for _, e := range swaps {
+			if e.sender == snd {
+				evs = append(evs, e)
+			}
+		}
+		if len(rs) > 8 || len(evs) > 16 || os.Getenv("ELYSSIM_GREEDY_MATCH") != "" {
+			continue // greedy only
+		}
+		taken := make([]bool, len(evs))
+		choice := make([][]*swapEvt, len(rs))
+		var solve func(i int) bool
+		solve = func(i int) bool {
+			if i == len(rs) {
+				for _, t := range taken {
+					if !t {
+						return false
+					}
+				}
+				return true
+			}
+			r := rs[i]
+			n := len(r.routesIn)
+			if !r.exactIn {
+				n = len(r.routesOut)
+			}
+			var free []int
+			for j, t := range taken {
+				if !t {
+					free = append(free, j)
+				}
+			}
+			for k := 0; n > 0 && k+n <= len(free); k++ {
+				idx := free[k : k+n]
+				chain := make([]*swapEvt, n)
+				for h, j := range idx {
+					chain[h] = evs[j]
+				}
+				if !shape(r, chain) || !within(r, chain) {
+					continue
+				}
+				for _, j := range idx {
+					taken[j] = true
+				}
+				choice[i] = chain
+				if solve(i + 1) {
+					return true
+				}
+				for _, j := range idx {
+					taken[j] = false
+				}
+				choice[i] = nil
+			}
+			return solve(i + 1) // void: the request was dropped at end-block
+		}
+		if solve(0) {
+			for i, r := range rs {
+				if choice[i] != nil {
+					preset[r] = choice[i]
+				}
+			}
+			s.Stats.Probe("swap_requests_attributed_consistently")
+		} else {
+			s.Stats.Probe("swap_requests_without_consistent_attribution")
+		}
+	}
+	for _, r := range ordered {
+		if chain, ok := preset[r]; ok {
+			for _, e := range chain {
+				e.used = true
+				e.exactOut = !r.exactIn
+			}
+			r.settled++
+			m.checkSettlement(s, eb, r, chain)
+			s.Stats.Probe("swap_request_settled")
+			continue
+		}
+	}
+	for _, r := range ordered {
+		if _, ok := preset[r]; ok {
+			continue
+		}
 		n := len(r.routesIn)
 		if !r.exactIn {
 			n = len(r.routesOut)
